@@ -1,8 +1,167 @@
-(* C09 — wire encoding lossless and canonical (theorems are added below as they are proved). *)
-From Coq Require Import String ZArith List.
-From EC Require Import Lib.Obs Lib.Outcome Model.Wire Model.ProtoSchema.
+(* C09 — wire encoding is lossless and canonical.
+
+   Layers (models in Model/{Wire,ProtoSchema,ProtoTyped}.v, schema in Gen/Schema.v):
+   1. wire: varint / value / tag-value sequences decode back to what was encoded;
+   2. schema: canonical_raw (proto_fmt.rs) maps EVERY reading of a byte string as a value of a
+      message (fields in any order, repeated scalars packed / unpacked / split, any varint
+      spelling the reader accepts, recursively) to the canonical bytes of that value, and those
+      bytes do not depend on the order in which different fields were produced;
+   3. typed: ProtoFmt::read (ProtoFmt::build v) = v on the property's domain for Duration,
+      Timestamp, SocketAddr (ip + port), BitVector, View, BlockHeader, ReplicaCommit, CommitQC,
+      ReplicaTimeout, TimeoutQC; the BTreeMap of TimeoutQC does not depend on insertion order.
+   The generated schema is checked in Properties/C09Gen.v. *)
+From Coq Require Import String ZArith List Bool Lia Permutation.
+From EC Require Import Lib.Obs Lib.Outcome Model.Wire Model.ProtoSchema Model.ProtoTyped Gen.Schema.
+From EC Require Import Proofs.WireProofs Proofs.ProtoSchemaProofs Proofs.ProtoTypedProofs.
 Import ListNotations.
+Open Scope list_scope.
 Open Scope Z_scope.
 
-Example C09_placeholder : encode_varint 300 = [172; 2].
-Proof. reflexivity. Qed.
+(* ---- 1. wire ---- *)
+
+Theorem C09_varint_roundtrip : forall x r, 0 <= x < two64 ->
+  read_varint64 (encode_varint x ++ r) = Some (x, r).
+Proof. exact varint_roundtrip. Qed.
+Print Assumptions C09_varint_roundtrip.
+
+Theorem C09_value_roundtrip : forall w v r, wval_ok w v ->
+  read_wval w (encode_wval v ++ r) = Some (v, r).
+Proof. exact wval_roundtrip. Qed.
+Print Assumptions C09_value_roundtrip.
+
+Theorem C09_tlv_roundtrip : forall l, Forall tlv_ok l -> parse_tlvs (encode_tlvs l) = Some l.
+Proof. exact tlv_roundtrip. Qed.
+Print Assumptions C09_tlv_roundtrip.
+
+(* ---- 2. canonical form, for every schema ---- *)
+
+Theorem C09_canonical_normalises : forall Sc mi b d,
+  denote Sc mi b = Some d -> canonical_raw Sc mi b = Ok (canon Sc mi d).
+Proof. exact canonical_normalises. Qed.
+Print Assumptions C09_canonical_normalises.
+
+Theorem C09_canon_order_irrelevant : forall Sc mi d d',
+  dmsg_equiv d d' -> canon Sc mi d = canon Sc mi d'.
+Proof. exact canon_order_irrelevant. Qed.
+Print Assumptions C09_canon_order_irrelevant.
+
+(* two serialisations of one value, produced in whatever order: identical canonical bytes, hence
+   identical hashes and signatures *)
+Theorem C09_canonical_deterministic : forall Sc mi b1 b2 d1 d2,
+  denote Sc mi b1 = Some d1 -> denote Sc mi b2 = Some d2 -> dmsg_equiv d1 d2 ->
+  canonical_raw Sc mi b1 = canonical_raw Sc mi b2.
+Proof. exact canonical_deterministic. Qed.
+Print Assumptions C09_canonical_deterministic.
+
+(* ---- 3. typed round trips ---- *)
+
+Theorem C09_roundtrip_duration : forall chk tn, dur_dom tn ->
+  exists d, build_duration chk tn = Ok d /\ read_duration d = Ok tn.
+Proof. exact roundtrip_duration. Qed.
+Print Assumptions C09_roundtrip_duration.
+
+(* a decoded duration / timestamp is always in the encodable domain (repairs dc190e4, 3005ef8) *)
+Theorem C09_decoded_duration_encodable : forall d tn, read_duration d = Ok tn -> dur_dom tn.
+Proof. exact decoded_duration_encodable. Qed.
+Print Assumptions C09_decoded_duration_encodable.
+
+Theorem C09_roundtrip_sockaddr : forall a, sockaddr_dom a -> read_sockaddr (build_sockaddr a) = Ok a.
+Proof. exact roundtrip_sockaddr. Qed.
+Print Assumptions C09_roundtrip_sockaddr.
+
+Theorem C09_roundtrip_bitvec : forall l, read_bitvec (build_bitvec l) = Ok l.
+Proof. exact roundtrip_bitvec. Qed.
+Print Assumptions C09_roundtrip_bitvec.
+
+Theorem C09_roundtrip_view : forall v, view_dom v -> read_view (build_view v) = Ok v.
+Proof. exact roundtrip_view. Qed.
+Print Assumptions C09_roundtrip_view.
+
+Theorem C09_roundtrip_header : forall h, header_dom h -> read_header (build_header h) = Ok h.
+Proof. exact roundtrip_header. Qed.
+Print Assumptions C09_roundtrip_header.
+
+Theorem C09_roundtrip_commit : forall c, commit_dom c -> read_commit (build_commit c) = Ok c.
+Proof. exact roundtrip_commit. Qed.
+Print Assumptions C09_roundtrip_commit.
+
+Theorem C09_roundtrip_commit_qc : forall sig_ok q, commit_qc_dom sig_ok q ->
+  read_commit_qc sig_ok (build_commit_qc q) = Ok q.
+Proof. exact roundtrip_commit_qc. Qed.
+Print Assumptions C09_roundtrip_commit_qc.
+
+Theorem C09_roundtrip_timeout : forall sig_ok t, timeout_dom sig_ok t ->
+  read_timeout sig_ok (build_timeout t) = Ok t.
+Proof. exact roundtrip_timeout. Qed.
+Print Assumptions C09_roundtrip_timeout.
+
+Theorem C09_roundtrip_timeout_qc : forall sig_ok q, timeout_qc_dom sig_ok q ->
+  read_timeout_qc sig_ok (build_timeout_qc q) = Ok q.
+Proof. exact roundtrip_timeout_qc. Qed.
+Print Assumptions C09_roundtrip_timeout_qc.
+
+(* a map kept sorted by a strict total order on its keys does not depend on the insertion order *)
+Theorem C09_map_insertion_order_irrelevant : forall (K V : Type) (cmp : K -> K -> comparison),
+  (forall a b, cmp b a = CompOpp (cmp a b)) ->
+  (forall a b c, cmp a b = Lt -> cmp b c = Lt -> cmp a c = Lt) ->
+  (forall a b, cmp a b = Eq -> a = b) ->
+  forall l l', Permutation l l' -> pairwise K V cmp l -> of_list K V cmp l = of_list K V cmp l'.
+Proof. exact map_insertion_order_irrelevant. Qed.
+Print Assumptions C09_map_insertion_order_irrelevant.
+
+(* TimeoutQC.map: the model's BTreeMap is that sorted map for the transcribed derived Ord of
+   ReplicaTimeout; the order laws of that transcription are the premises *)
+Theorem C09_timeoutqc_insertion_order_irrelevant :
+  (forall a b, cmp_timeout b a = CompOpp (cmp_timeout a b)) ->
+  (forall a b c, cmp_timeout a b = Lt -> cmp_timeout b c = Lt -> cmp_timeout a c = Lt) ->
+  (forall a b, cmp_timeout a b = Eq -> a = b) ->
+  forall l l', Permutation l l' -> pairwise _ _ cmp_timeout l -> tmap_of_list l = tmap_of_list l'.
+Proof.
+  intros H1 H2 H3 l l' Hp Hd. rewrite !tmap_of_list_is_of_list.
+  apply map_insertion_order_irrelevant; assumption.
+Qed.
+Print Assumptions C09_timeoutqc_insertion_order_irrelevant.
+
+(* ---- full statement (not proved in full; see the `partial` note of the evidence) ---- *)
+(* For every modelled type: the bytes written by encode are read back to the same dynamic
+   message, so that decode_T (encode_T v) = v follows from the round trips above.  Proved: the
+   dynamic-message level (theorems above) and canonical_raw on every reading; not proved: that
+   the reference reading of the canonical bytes of a sorted well-formed message is that message. *)
+Definition C09_full : Prop :=
+  forall (Sc : ProtoSchema.schema) (mi : nat) (d : dmsg),
+    schema_canonical_ok Sc = true -> schema_wf Sc = true ->
+    (exists b, denote Sc mi b = Some d) ->
+    exists d', denote Sc mi (canon Sc mi d) = Some d' /\ dmsg_equiv d d'.
+
+(* ---- non-vacuity ---- *)
+
+(* one value of tests.proto's A (x = [1;2], e = [0;1;1;2], nested b.u = true) in three spellings:
+   canonical; fields reversed with the enum list split into unpacked + packed chunks; zero-padded
+   varints in tag, length and value *)
+Example C09_nonvacuous_alternatives :
+  let canonical := [10;2;1;2; 34;4;0;1;1;2; 42;2;16;1] in
+  let shuffled  := [42;2;16;1; 32;0; 34;2;1;1; 32;2; 10;2;1;2] in
+  let padded    := [138;0;130;128;0;1;2; 34;5;0;1;129;0;2; 42;4;16;129;128;0] in
+  denote test_schema 1 shuffled <> None /\
+  canonical_raw test_schema 1 canonical = Ok canonical /\
+  canonical_raw test_schema 1 shuffled = Ok canonical /\
+  canonical_raw test_schema 1 padded = Ok canonical.
+Proof. vm_compute. repeat split; discriminate. Qed.
+
+(* the panic site of canonical_raw is real and outside `denote` *)
+Example C09_empty_packed_chunk :
+  canonical_raw schema idx_zksync_roles_validator_ViewV2 [18; 0] = Panic PIndex /\
+  denote schema idx_zksync_roles_validator_ViewV2 [18; 0] = None.
+Proof. vm_compute. split; reflexivity. Qed.
+
+(* a TimeoutQC with two entries in the domain of the round trip *)
+Example C09_nonvacuous_timeout_qc :
+  let g := repeat 7 32 in
+  let v := {| v_genesis := g; v_number := 5; v_epoch := 1 |} in
+  let t1 := {| rt_view := v; rt_high_vote := None; rt_high_qc := None |} in
+  let t2 := {| rt_view := v; rt_high_vote := Some {| rc_view := v; rc_proposal := {| bh_number := 9; bh_payload := g |} |};
+               rt_high_qc := None |} in
+  let q := {| tq_view := v; tq_map := [(t1, [true; false]); (t2, [false; true; true])]; tq_sig := repeat 1 48 |} in
+  read_timeout_qc pool_sig_ok (build_timeout_qc q) = Ok q /\
+  tmap_of_list [(t2, [false; true; true]); (t1, [true; false])] = tq_map q.
+Proof. vm_compute. split; reflexivity. Qed.
